@@ -15,8 +15,8 @@ def textCovered : List String :=
     | none => false)).map (·.1)
 
 theorem text_covered_types :
-    textCovered = ["AFSDB", "AVC", "CAA", "CDNSKEY", "CDS", "CNAME", "DHCID", "DLV", "DNAME", "DNSKEY", "DS", "EID", "GID", "HINFO", "ISDN", "KEY", "KX", "LP", "MB", "MD", "MF", "MG",
-      "MINFO", "MR", "MX", "NIMLOC", "NINFO", "NS", "NSAPPTR", "OPENPGPKEY", "PTR", "PX", "RESINFO", "RKEY", "RP", "RT", "SOA", "SPF", "SRV",
+    textCovered = ["AFSDB", "AVC", "CAA", "CDNSKEY", "CDS", "CNAME", "DHCID", "DLV", "DNAME", "DNSKEY", "DS", "EID", "EUI48", "EUI64", "GID", "HINFO", "ISDN", "KEY", "KX", "L64", "LP", "MB", "MD", "MF", "MG",
+      "MINFO", "MR", "MX", "NID", "NIMLOC", "NINFO", "NS", "NSAPPTR", "OPENPGPKEY", "PTR", "PX", "RESINFO", "RKEY", "RP", "RT", "SOA", "SPF", "SRV",
       "SSHFP", "TA", "TALINK", "TLSA", "TXT", "UID", "UINFO", "URI", "X25", "ZONEMD"] := by
   decide
 
@@ -46,6 +46,8 @@ theorem fits_exist (P Q : List TStep) (h : matchPlans P Q = true) : ∃ vals val
     · exact ⟨.s (presentOf []), ⟨[], by decide, rfl⟩⟩
     · rename_i u; cases u <;> simp only [kindEq, Bool.false_eq_true] at hk
       exact ⟨.s [65], ⟨by simp, by decide⟩⟩
+    · exact ⟨.n 0, by simp only [FieldWF]; exact Nat.two_pow_pos _⟩
+    · exact ⟨.n 0, by simp [FieldWF]⟩
   fun_induction matchPlans P Q
   · exact ⟨_, _, Fits.txt [] (by simp)⟩
   · exact ⟨_, _, Fits.pair [] [] (by simp) (by simp)⟩
